@@ -492,3 +492,175 @@ Proof.
     rewrite (unpack_from_exact (sig_SF ++ concat [[12]; [SU_ENTRY_VERSION]]) _ rest _ 12 4) by reflexivity.
     rewrite !dboth32_enc by assumption. reflexivity.
 Qed.
+
+(* ---- one entry: dispatch, layout, static length ---- *)
+Definition entry_aux (v : rrv) (e : su_entry) : Z := match e with E_PX _ => px_aux v | _ => 0 end.
+Definition is_pd (e : su_entry) : bool := match e with E_PD _ => true | _ => false end.
+
+Theorem entry_roundtrip v e rest : entry_ok v e = true -> (is_pd e = true -> rest = []) ->
+  exists b, rec_entry v e = Some b /\ parse_entry (sig_of e) (b ++ rest) = Some (e, entry_aux v e).
+Proof.
+  intros H Hpd. destruct e; cbn [entry_ok] in H; cbn [rec_entry sig_of entry_aux].
+  - destruct (sp_roundtrip skip rest H) as [R P]. eexists; split; [exact R|].
+    change (parse_entry sig_SP ?s) with (opt_map (fun a => (E_SP a, 0)) (parse_sp s)). rewrite P. reflexivity.
+  - destruct (rr_roundtrip fl rest H) as [R P]. eexists; split; [exact R|].
+    change (parse_entry sig_RR ?s) with (opt_map (fun a => (E_RR a, 0)) (parse_rr s)). rewrite P. reflexivity.
+  - destruct (ce_roundtrip c rest H) as [R P]. eexists; split; [exact R|].
+    change (parse_entry sig_CE ?s) with (opt_map (fun a => (E_CE a, 0)) (parse_ce s)). rewrite P. reflexivity.
+  - destruct (px_roundtrip v p rest H) as (l & Hl & R & P). eexists; split; [exact R|].
+    change (parse_entry sig_PX ?s) with (opt_map (fun pl => (E_PX (fst pl), snd pl)) (parse_px s)).
+    rewrite P. unfold px_aux. rewrite Hl. reflexivity.
+  - destruct (er_roundtrip e rest H) as [R P]. eexists; split; [exact R|].
+    change (parse_entry sig_ER ?s) with (opt_map (fun a => (E_ER a, 0)) (parse_er s)). rewrite P. reflexivity.
+  - destruct (es_roundtrip sq rest H) as [R P]. eexists; split; [exact R|].
+    change (parse_entry sig_ES ?s) with (opt_map (fun a => (E_ES a, 0)) (parse_es s)). rewrite P. reflexivity.
+  - destruct (pn_roundtrip p rest H) as [R P]. eexists; split; [exact R|].
+    change (parse_entry sig_PN ?s) with (opt_map (fun a => (E_PN a, 0)) (parse_pn s)). rewrite P. reflexivity.
+  - destruct (sl_roundtrip s rest H) as (R & P & _). eexists; split; [exact R|].
+    change (parse_entry sig_SL ?s) with (opt_map (fun a => (E_SL a, 0)) (parse_sl s)). rewrite P. reflexivity.
+  - destruct (nm_roundtrip n rest H) as [R P]. eexists; split; [exact R|].
+    change (parse_entry sig_NM ?s) with (opt_map (fun a => (E_NM a, 0)) (parse_nm s)). rewrite P. reflexivity.
+  - destruct (link_roundtrip sig_CL bl rest eq_refl H) as [R P]. eexists; split; [exact R|].
+    change (parse_entry sig_CL ?s) with (opt_map (fun a => (E_CL a, 0)) (parse_link s)). rewrite P. reflexivity.
+  - destruct (link_roundtrip sig_PL bl rest eq_refl H) as [R P]. eexists; split; [exact R|].
+    change (parse_entry sig_PL ?s) with (opt_map (fun a => (E_PL a, 0)) (parse_link s)). rewrite P. reflexivity.
+  - eexists; split; [reflexivity|].
+    change (parse_entry sig_RE ?s) with (opt_map (fun _ => (E_RE, 0)) (parse_bare s)).
+    rewrite (bare_roundtrip sig_RE rest eq_refl). reflexivity.
+  - eexists; split; [reflexivity|].
+    change (parse_entry sig_ST ?s) with (opt_map (fun _ => (E_ST, 0)) (parse_bare s)).
+    rewrite (bare_roundtrip sig_ST rest eq_refl). reflexivity.
+  - destruct (tf_roundtrip t rest H) as (R & P & _). eexists; split; [exact R|].
+    change (parse_entry sig_TF ?s) with (opt_map (fun a => (E_TF a, 0)) (parse_tf s)). rewrite P. reflexivity.
+  - destruct (sf_roundtrip s rest H) as [R P]. eexists; split; [exact R|].
+    change (parse_entry sig_SF ?s) with (opt_map (fun a => (E_SF a, 0)) (parse_sf s)). rewrite P. reflexivity.
+  - rewrite (Hpd eq_refl). destruct (pd_roundtrip padding H) as [R P]. eexists; split; [exact R|].
+    change (parse_entry sig_PD ?s) with (opt_map (fun a => (E_PD a, 0)) (parse_pd s)). rewrite P. reflexivity.
+  - destruct (al_roundtrip a rest H) as (R & P & _). eexists; split; [exact R|].
+    change (parse_entry sig_AL ?s) with (opt_map (fun a => (E_AL a, 0)) (parse_al s)). rewrite P. reflexivity.
+Qed.
+
+(* record() = signature ++ [its own length; 1] ++ payload; the length is the class's static length()
+   (SF: record() picks 12/21 by the presence of the high word, length(rr_version) by the version) *)
+Definition static_ok (v : rrv) (e : su_entry) (L : Z) : Prop :=
+  match e with E_SF s => L = sf_len_byte s | _ => static_len v e = Some L end.
+
+Theorem entry_layout v e b : entry_ok v e = true -> rec_entry v e = Some b ->
+  exists payload, b = sig_of e ++ [zlen b; 1] ++ payload /\ 4 <= zlen b <= 255 /\ static_ok v e (zlen b).
+Proof.
+  intros H R.
+  assert (G : forall L payload, b = sig_of e ++ [L; 1] ++ payload -> zlen b = L -> 4 <= L <= 255 ->
+              static_ok v e L ->
+              exists payload, b = sig_of e ++ [zlen b; 1] ++ payload /\ 4 <= zlen b <= 255 /\ static_ok v e (zlen b)).
+  { intros L payload E1 E2 E3 E4. exists payload. rewrite E2. auto. }
+  destruct e; cbn [entry_ok] in H; cbn [rec_entry] in R.
+  - unfold rec_sp in R. rewrite H in R. apply some_inv in R. subst b.
+    apply (G 7 [190; 239; skip]); [reflexivity|reflexivity|lia|reflexivity].
+  - unfold rec_rr in R. rewrite H in R. apply some_inv in R. subst b.
+    apply (G 5 [fl]); [reflexivity|reflexivity|lia|reflexivity].
+  - destruct (ce_roundtrip c [] H) as [R' _]. rewrite R' in R. apply some_inv in R. subst b.
+    eapply (G 28); [reflexivity|reflexivity|lia|reflexivity].
+  - destruct (px_roundtrip v p [] H) as (l & Hl & R' & _). rewrite R' in R. apply some_inv in R. subst b.
+    destruct v; try discriminate; apply some_inv in Hl; subst l;
+      (eapply G; [reflexivity|reflexivity|lia|reflexivity]).
+  - destruct (er_roundtrip e [] H) as [R' _]. rewrite R' in R. apply some_inv in R. subst b.
+    unfold er_ok in H. apply andb_prop in H. destruct H as [H _].
+    pose proof (zlen_nonneg (er_id e)). pose proof (zlen_nonneg (er_des e)). pose proof (zlen_nonneg (er_src e)).
+    eapply (G (len_er (er_id e) (er_des e) (er_src e))); [reflexivity| |unfold len_er in *; lia|reflexivity].
+    unfold enc_er. rewrite !zlen_app. change (zlen (sig_ER ++ concat (er_fields e))) with 8.
+    unfold len_er. lia.
+  - unfold rec_es in R. rewrite H in R. apply some_inv in R. subst b.
+    apply (G 5 [sq]); [reflexivity|reflexivity|lia|reflexivity].
+  - destruct (pn_roundtrip p [] H) as [R' _]. rewrite R' in R. apply some_inv in R. subst b.
+    eapply (G 20); [reflexivity|reflexivity|lia|reflexivity].
+  - destruct (sl_roundtrip s [] H) as (R' & _ & Z). rewrite R' in R. apply some_inv in R. subst b.
+    unfold sl_ok in H. rewrite !andb_true_iff in H. destruct H as (_ & H).
+    assert (5 <= sl_current_length s).
+    { unfold sl_current_length, len_sl. rewrite fold_left_sum.
+      assert (forall l, 0 <= fold_right (fun n acc => sl_comp_length n + acc) 0 l).
+      { induction l as [|x l IH]; cbn; [lia|]. unfold sl_comp_length at 1.
+        pose proof (zlen_nonneg x). destruct (is_special x); lia. }
+      specialize (H0 (map comp_name (sl_comps s))). lia. }
+    eapply (G (sl_current_length s)); [reflexivity|exact Z|lia|reflexivity].
+  - destruct (nm_roundtrip n [] H) as [R' _]. rewrite R' in R. apply some_inv in R. subst b.
+    unfold nm_ok in H. rewrite !andb_true_iff in H. destruct H as (((_ & H) & _) & _).
+    pose proof (zlen_nonneg (nm_name n)).
+    eapply (G (len_nm (nm_name n))); [reflexivity| |unfold len_nm in *; lia|reflexivity].
+    unfold enc_nm. rewrite zlen_app. unfold len_nm. reflexivity.
+  - unfold rec_link in R. rewrite H in R. apply some_inv in R. subst b.
+    eapply (G 12); [reflexivity|reflexivity|lia|reflexivity].
+  - unfold rec_link in R. rewrite H in R. apply some_inv in R. subst b.
+    eapply (G 12); [reflexivity|reflexivity|lia|reflexivity].
+  - apply some_inv in R. subst b. apply (G 4 []); [reflexivity|reflexivity|lia|reflexivity].
+  - apply some_inv in R. subst b. apply (G 4 []); [reflexivity|reflexivity|lia|reflexivity].
+  - destruct (tf_roundtrip t [] H) as (R' & _ & Z & _). rewrite R' in R. apply some_inv in R. subst b.
+    unfold tf_ok in H. apply andb_prop in H. destruct H as [H _].
+    destruct (tf_length_popcount _ H) as [L1 L2].
+    assert (5 <= len_tf (tf_flags t)).
+    { rewrite <- Z. unfold enc_tf. rewrite zlen_app.
+      pose proof (zlen_nonneg (concat (tf_present (tf_fields t)))).
+      change (zlen (sig_TF ++ _)) with 5. lia. }
+    eapply (G (len_tf (tf_flags t))); [reflexivity|exact Z|lia|reflexivity].
+  - destruct (sf_roundtrip s [] H) as [R' _]. rewrite R' in R. apply some_inv in R. subst b.
+    destruct s as [[h|] low [d|]]; try discriminate H;
+      (eapply G; [reflexivity|reflexivity|cbn; lia|reflexivity]).
+  - destruct (pd_roundtrip padding H) as [R' _]. rewrite R' in R. apply some_inv in R. subst b.
+    pose proof (zlen_nonneg padding).
+    eapply (G (len_pd padding)); [reflexivity| |unfold len_pd in *; lia|reflexivity].
+    unfold enc_pd. rewrite zlen_app. unfold len_pd. reflexivity.
+  - destruct (al_roundtrip a [] H) as (R' & _ & Z). rewrite R' in R. apply some_inv in R. subst b.
+    unfold al_ok in H. rewrite !andb_true_iff in H. destruct H as (_ & H).
+    assert (5 <= al_current_length a).
+    { unfold al_current_length, len_al. rewrite (fold_left_sum (fun x => 2 + zlen x)).
+      assert (forall l : list (list Z), 0 <= fold_right (fun n acc => 2 + zlen n + acc) 0 l).
+      { induction l as [|x l IH]; cbn; [lia|]. pose proof (zlen_nonneg x). lia. }
+      specialize (H0 (map c_data (al_comps a))). lia. }
+    eapply (G (al_current_length a)); [reflexivity|exact Z|lia|reflexivity].
+Qed.
+
+Corollary entry_len_byte v e b : entry_ok v e = true -> rec_entry v e = Some b ->
+  firstn 2 b = sig_of e /\ nth 2 b 0 = zlen b /\ nth 3 b 0 = 1.
+Proof.
+  intros H R. destruct (entry_layout v e b H R) as (payload & E & _).
+  assert (Hs : exists s0 s1, sig_of e = [s0; s1]) by (destruct e; cbn; eauto).
+  destruct Hs as (s0 & s1 & Hs). rewrite Hs in E. rewrite E at 1 2 3. rewrite Hs. cbn. auto.
+Qed.
+
+(* ---- what the range predicates exclude, by counterexample (all reproduced on the real library) ---- *)
+(* a plain component whose data spells "." is counted as 2 bytes by current_length() but written as 3:
+   the length byte of the re-recorded entry is wrong; such an object is what parse() itself produces *)
+Theorem sl_plain_dot_length_refuted :
+  exists area s b, parse_sl area = Some s /\ rec_sl s = Some b /\ b <> area /\ nth 2 b 0 <> zlen b.
+Proof.
+  exists [83; 76; 8; 1; 0; 0; 1; 46], (mk_sl 0 [mk_comp 0 1 [46]]), [83; 76; 7; 1; 0; 0; 1; 46].
+  repeat split; try reflexivity; vm_compute; discriminate.
+Qed.
+(* Component.factory(b'.') keeps data = b'.', parse() of its record has data = b'' *)
+Theorem sl_factory_dot_roundtrip_refuted :
+  exists s b s', rec_sl s = Some b /\ parse_sl b = Some s' /\ s' <> s /\
+                 sl_name (sl_comps s') = sl_name (sl_comps s).
+Proof.
+  exists (mk_sl 0 [sl_factory [46]]), [83; 76; 7; 1; 0; 2; 0], (mk_sl 0 [mk_comp 2 0 []]).
+  repeat split; try reflexivity. vm_compute. discriminate.
+Qed.
+(* RRSFRecord.new(high, low, None): length byte 21, 12 bytes written *)
+Theorem sf_high_without_depth_refuted :
+  exists s b, rec_sf s = Some b /\ nth 2 b 0 = 21 /\ zlen b = 12 /\ parse_sf b = None.
+Proof. exists (mk_sf (Some 1) 2 None). eexists. repeat split; vm_compute; reflexivity. Qed.
+(* a PX serial number is not written under 1.09 / 1.10 *)
+Theorem px_serial_dropped_refuted :
+  exists p b, rec_px V109 p = Some b /\ parse_px b = Some (mk_px 33188 1 0 0 0, 36) /\ px_serial p <> 0.
+Proof. exists (mk_px 33188 1 0 0 7). eexists. repeat split; vm_compute; (reflexivity || discriminate). Qed.
+
+Print Assumptions entry_roundtrip.
+Print Assumptions entry_layout.
+Print Assumptions entry_len_byte.
+Print Assumptions tf_roundtrip.
+Print Assumptions tf_length_popcount.
+Print Assumptions sl_roundtrip.
+Print Assumptions al_roundtrip.
+Print Assumptions px_roundtrip.
+Print Assumptions pd_swallows_rest.
+Print Assumptions sl_plain_dot_length_refuted.
+Print Assumptions sl_factory_dot_roundtrip_refuted.
+Print Assumptions sf_high_without_depth_refuted.
